@@ -1,0 +1,1 @@
+//! Verification hooks (`--cfg rustrtc_verif` only): peer.
